@@ -82,7 +82,7 @@ class Prop(BaseProp):
                     qs.append(["iv", None])
                 elif r < 0.8:
                     ivs = []
-                    for _ in range(rng.randint(2, 3)):
+                    for _ in range(rng.choice([1, 2, 2, 3])):
                         a, b, kd = gen.pick_interval(rng, ts, te, ev)
                         ivs.append([a, b])
                     qs.append(["ivs", ivs])
